@@ -17,6 +17,10 @@ from . import patches
 from cobald.daemon.runners.service import ServiceRunner, ServiceUnit, service
 from cobald.daemon.runners.base_runner import OrphanedReturn
 
+import re
+
+_ADDR = re.compile(r"0x[0-9a-fA-F]+")
+
 FLAVOURS = {"asyncio": asyncio, "trio": trio, "threading": threading}
 
 
@@ -184,6 +188,9 @@ class Harness:
         if pid is not None:
             e["pid"] = pid
         if data:
+            for k, val in data.items():
+                if isinstance(val, str) and "0x" in val:
+                    data[k] = _ADDR.sub("0x?", val)  # object addresses differ between processes
             e.update(data)
         self.events.append(e)
         m = self.markers.get(kind if pid is None else "%s:%s" % (kind, pid))
